@@ -5,64 +5,72 @@ package turn
 
 import (
 	"net"
+	"strconv"
 	"sync"
 )
 
-// relayListenerPorts remembers the ports of the live TCP relay listeners a generator has
-// handed out. The listeners are bound with SO_REUSEPORT (the outgoing connections of an
-// allocation share its relayed address), so binding a port a second time succeeds: the
-// kernel does not tell that the port belongs to another allocation.
+// relayListenerPorts remembers the addresses of the live TCP relay listeners the generators
+// of this process have handed out. The listeners are bound with SO_REUSEPORT (the outgoing
+// connections of an allocation share its relayed address), so binding a port a second time
+// succeeds: the kernel does not tell that the port belongs to another allocation. One table
+// serves all generators, a server with several listeners usually has one generator each.
 type relayListenerPorts struct {
 	lock  sync.Mutex
-	ports map[int]struct{}
+	ports map[string]struct{}
 }
 
-func (p *relayListenerPorts) reserve(port int) bool {
+var liveRelayListeners relayListenerPorts // nolint:gochecknoglobals
+
+func relayListenerKey(ip net.IP, port int) string {
+	return net.JoinHostPort(ip.String(), strconv.Itoa(port))
+}
+
+func (p *relayListenerPorts) reserve(key string) bool {
 	p.lock.Lock()
 	defer p.lock.Unlock()
 
-	if _, taken := p.ports[port]; taken {
+	if _, taken := p.ports[key]; taken {
 		return false
 	}
 	if p.ports == nil {
-		p.ports = map[int]struct{}{}
+		p.ports = map[string]struct{}{}
 	}
-	p.ports[port] = struct{}{}
+	p.ports[key] = struct{}{}
 
 	return true
 }
 
-func (p *relayListenerPorts) release(port int) {
+func (p *relayListenerPorts) release(key string) {
 	p.lock.Lock()
 	defer p.lock.Unlock()
 
-	delete(p.ports, port)
+	delete(p.ports, key)
 }
 
-// listen binds a listener with bind, unless the requested port is held by a live listener
-// of this generator. The listener returned gives its port back when it is closed.
-func (p *relayListenerPorts) listen(requestedPort int, bind func() (net.Listener, error)) (net.Listener, error) {
-	if requestedPort != 0 && !p.reserve(requestedPort) {
+// listen binds a listener with bind, unless the requested port of that IP address is held by
+// a live relay listener. The listener returned gives its port back when it is closed.
+func (p *relayListenerPorts) listen(ip net.IP, requestedPort int, bind func() (net.Listener, error)) (net.Listener, error) {
+	key := relayListenerKey(ip, requestedPort)
+	if requestedPort != 0 && !p.reserve(key) {
 		return nil, errRelayPortInUse
 	}
 
 	ln, err := bind()
 	if err != nil {
 		if requestedPort != 0 {
-			p.release(requestedPort)
+			p.release(key)
 		}
 
 		return nil, err
 	}
 
-	port := requestedPort
-	if tcpAddr, ok := ln.Addr().(*net.TCPAddr); ok && port == 0 {
+	if tcpAddr, ok := ln.Addr().(*net.TCPAddr); ok && requestedPort == 0 {
 		// Chosen by the kernel, which only picks ports nobody is bound to.
-		port = tcpAddr.Port
-		p.reserve(port)
+		key = relayListenerKey(ip, tcpAddr.Port)
+		p.reserve(key)
 	}
 
-	return &relayListener{Listener: ln, release: func() { p.release(port) }}, nil
+	return &relayListener{Listener: ln, release: func() { p.release(key) }}, nil
 }
 
 type relayListener struct {
